@@ -22,7 +22,7 @@ IRFLAGS = ["-std=c++17", "-O1", "-fno-access-control", "-fno-vectorize", "-fno-s
            "-fsanitize=shift,signed-integer-overflow,integer-divide-by-zero,bounds,unreachable,return",
            "-fsanitize-trap=all", "-I" + STUBS, "-I" + SRC, "-I" + HARNESS, "-S", "-emit-llvm", "-w"]
 NATFLAGS = ["-std=c++17", "-O1", "-g", "-fno-access-control", "-fsanitize=address,undefined",
-            "-fno-sanitize=nonnull-attribute,vptr", "-fno-sanitize-recover=all", "-fno-omit-frame-pointer",
+            "-fno-sanitize=nonnull-attribute,vptr,alignment", "-fno-sanitize-recover=all", "-fno-omit-frame-pointer",
             "-I" + SRC, "-I" + HARNESS, "-w"]
 # message formatting is cut (returns ""), std::string::_M_replace is wrapped by the runtime (see DESIGN 1.2/1.3)
 IR2C_BASE = ["--emptystr", "_ZNSt7__cxx119to_string", "--emptystr", "_ZStpl", "--keep-in", "_ZN10OP2Utility5XFile13PathsAreEqual",
